@@ -238,7 +238,9 @@ theorem ClSame.cnFail (i : Nat) (cfg : Cfg) (n : N) (w : Who) (hw : w = .cl i 
       路 split
         路 split
           路 exact ha.trans (ClSame.knCleanup i _)
-          路 exact (ha.trans (ClSame.cnStop i _ .kn (fun h => by cases h))).ev' _ rfl
+          路 split
+            路 exact (((ha.trans (ClSame.cnStop i _ .kn (fun h => by cases h))).ev' _ rfl).ev' _ rfl).same rfl rfl rfl
+            路 exact (ha.trans (ClSame.cnStop i _ .kn (fun h => by cases h))).ev' _ rfl
         路 exact ha.trans (ClSame.of_eq rfl rfl rfl)
       路 exact ha
     路 exact ha
@@ -946,6 +948,7 @@ theorem CI_step (i : Nat) (cfg : Cfg) (n : N) (op : Op) (h : CI i n) : CI i (ste
       exact CI_fireAll i cfg _ _ (h.same (ClSame.of_eq rfl rfl rfl))
   | knDelay tbl => exact h.same (ClSame.of_eq rfl rfl rfl)
   | knDelayAct tbl k cl => exact h.same (ClSame.of_eq rfl rfl rfl)
+  | knDelayRe tbl k => exact h.same (ClSame.of_eq rfl rfl rfl)
   | budget k => exact h.same (ClSame.of_eq rfl rfl rfl)
   | fault kind k => simp only [step]; split <;> exact h.same (ClSame.of_eq rfl rfl rfl)
 
